@@ -698,7 +698,8 @@ open Tickit.RBFlushX in
     request are well-formed UTF-8 of printable code points that have a width; pens the driver can say; columns not
     negative) and no erase cell asking for reverse video.  That the requests fit the screen (no wrap, no clamped
     movement) is not assumed: it follows from "the content lies within the screen" (`Calm`, the by-product of
-    `flush_spec_screen`'s proof; `runOK_of_calm`).  Conclusion as in `C04_xterm_screen`, for every cell: through an
+    `flush_spec_screen`'s proof; `runOK_of_calm`).  Conclusion as in `C04_xterm_screen`, for every cell of the screen
+    (`xterm_screen_of_runOK`: also for the cells outside it): through an
     output buffer of any size the VT screen shows the buffer's content over the prior screen, each cell in the rendition
     its own pen asks for, written exactly once.  Still missing for `C04_xterm_screen` itself: `StaticOK` from `FlushWF`,
     `TextsStrict`, `CharsPrintable` and the pens of the cells (an induction over `flushCols`: the slices of TEXT runs, the
@@ -706,16 +707,19 @@ open Tickit.RBFlushX in
     full rendition, and the cursors part until the next goto - `Sim`/`Cur` would have to be weakened to `glyphSame`). -/
 theorem C04_xterm_screen_partial (caps : TermPen.Caps) (n : Nat) (rb : RB) (s : XScreen) (cache : Pen)
     (hwf : FlushWF rb) (hin : ∀ l c, s.lines ≤ l ∨ s.cols ≤ c → want rb l c = .keep)
-    (hl : 0 < s.lines) (hc : 0 < s.cols) (hg : s.ps = .ground) (he : PenEncodable caps cache)
-    (ha : s.attrs = expectAttrs caps cache)
+    (hg : s.ps = .ground) (he : PenEncodable caps cache) (ha : s.attrs = expectAttrs caps cache)
     (hst : StaticOK caps false (Pen.getBool cache.reverse) (flushToTerm rb).reqs)
     (hrv : ∀ l c p, want rb l c = .glyph .blank p → Pen.getBool p.reverse = false) :
-    ∀ l c, xcellOK caps (want rb l c) (s.cells l c)
-      ((s.interp (xflush caps n cache (flushToTerm rb).reqs).stream).cells l c) = true := by
+    ∀ l c, 0 ≤ l → l < s.lines → 0 ≤ c → c < s.cols →
+      xcellOK caps (want rb l c) (s.cells l c)
+        ((s.interp (xflush caps n cache (flushToTerm rb).reqs).stream).cells l c) = true := by
+  intro l c hl0 hl1 hc0 hc1
+  have hl : 0 < s.lines := by omega
+  have hc : 0 < s.cols := by omega
   obtain ⟨_, _, hcalm⟩ := flush_spec_of_text_within (W := (gridOf s cache).cols) (L := s.lines) hwf (within_of_want hin)
     (fun _ _ h1 h2 h3 hr hs => text_run ⟨h1, h2⟩ h3 hr hs) (gridOf s cache) (Int.le_refl _)
   exact xterm_screen_of_runOK caps n rb s cache hwf hin hl hc hg he ha
-    (runOK_of_calm caps s.lines _ (gridOf s cache) false hcalm hst) hrv
+    (runOK_of_calm caps s.lines _ (gridOf s cache) false hcalm hst) hrv l c
 
 /-- U+00E9 in a CHAR cell at (0,1) and an erase run of three cells on line 1 of a 2×4 buffer. -/
 def simXRB : RB := eraseAt (charAt (RB.new 2 4 0 0) 0 1 0xe9) 1 0 3
